@@ -25,7 +25,7 @@ CHECKS.update({
          "DESIGN.md §5 C13"),
  "C02": ("proptest program recipes interpreted per device, compared byte for byte with the reference layout model; label values observed through a .dd table",
          "100k (quick) / 1M (thorough) generated multi-segment programs per run over every device of the table: interleaved .cseg/.dseg/.eseg blocks, forward .org (literal, constant expression or earlier .equ), one- and two-word instructions (one-word lds/sts on reduced cores), odd/even .db with strings, .dw/.dd/.dq, .byte, labels before items and at block ends. code, eeprom and ram_filling must equal the model's layout and every label value (made visible in a final .dd table) must equal the position of the item that follows it. Backward .org must fail.",
-         "Reference layout model harness/src/model.rs. Input domain restrictions of DESIGN §4 (.org is followed by an item of the same segment, never follows a label, `.org 0` only at position 0). Known finding: .byte with a non-literal operand (exercised in a separate fixed leg, excluded from the random stream).",
+         "Reference layout model harness/src/model.rs. Input domain restrictions of DESIGN §4 (.org is followed by an item of the same segment, never follows a label, `.org 0` only at position 0). Open findings (fixed legs, printed as KNOWN-FINDING): .byte whose size is not known where the directive stands (.set variable, later .equ); .org 0 behind content that came out of macro calls.",
          "DESIGN.md §5 C02, §11"),
  "C03": ("deterministic boundary sweep + proptest placements, decoded with the independent decoder and compared with the reference model",
          "Every branch kind (18 br*, brbs/brbc, rjmp, rcall) x every distance within 3 of both range limits x 4 fillers deterministically (about 6 000 cases incl. distances congruent to reachable ones modulo the field size, 2^8 and 2^16, on four device variants) plus 120k (quick) / 1.5M (thorough) generated placements with fillers of one/two-word instructions, odd .db, .dw and .org gaps, targets spelled as label, pc±k, label+k, label-k. A reachable target must give exactly displacement d (the harness decodes the word with its own decoder); an unreachable one must fail the build.",
@@ -85,18 +85,20 @@ NOT_YET = {}
 # additions of the third round (appended to the level text)
 EXTRA = {
  "C01": " A context leg assembles sampled tuples of every form as the first item after an .org, after excursions into the data/EEPROM segments, in a continued code segment, with registers spelled through .def aliases defined in either segment, and under five full-featured devices.",
- "C02": " A deterministic leg checks that origins set from macro bodies (.org only, leading, trailing, between items, inside data/EEPROM excursions, through nested calls, back to the start of the caller's block) land where the same lines written in place land.",
+ "C02": " A deterministic leg checks that origins set from macro bodies (.org only, leading, trailing, between items, inside data/EEPROM excursions, through nested calls, back to the start of the caller's block) land where the same lines written in place land. Reservation sizes are written as literals, constant expressions or earlier .equ symbols.",
  "C03": " Fillers contain strings with multi-byte characters; two of six spellings let the branch come out of a macro (compound target argument, or pc-@0 computed in the body).",
  "C04": " A seeded free-form leg (800k quick / 8M thorough) and the libFuzzer target `instr` decode bytes into one instruction with 0-4 operands of any kind, values from edge / wrap-twin / wide distributions in nine spellings (decimal, hex, .equ, parenthesised, v+0, character literal, .set re-assigned inside .dseg, grouping-sensitive macro argument, operator applied in a macro body) at word addresses 0-5.",
  "C05": " Every eighth tree is additionally evaluated with its root operator in a macro body and the root's operands as arguments.",
- "C08": " Every fourth program is additionally assembled with everything after the prelude as the body of a macro called with one argument, unselected lines using parameters the call does not pass.",
+ "C07": " The reader accepts no empty lines: the file consists of records only.",
+ "C08": " Unselected branches also hold nested conditionals whose own condition is not valid (balanced), and every fourth program is additionally assembled with labels in front of about half of its conditional directives. Every fourth program is additionally assembled with everything after the prelude as the body of a macro called with one argument, unselected lines using parameters the call does not pass.",
  "C09": " Deterministic context pairs (macro form vs hand-expanded text): origins set by bodies, definitions inside taken/untaken conditionals closed with .endm/.endmacro, comment characters inside literals of a body, the moment a conditional of the body is decided (open finding), calls made while .dseg/.eseg is selected.",
- "C11": " Trees with an even number of files name the main file by a path relative to the working directory; the main file may be a symbolic link. A deterministic leg opens a conditional or a macro definition in one file and closes it in the other (two open findings).",
- "C12": " A placement grid (every device x memory x {cap, cap+1}) selects the device from a macro body (defined before or after), inside a conditional or after the content, places the last unit through a macro that starts with .org, and follows an over-full memory by an .org back to its start; .device operands that are not names, two names on one line and second selections through macros must fail.",
+ "C10": " A deterministic leg gives one name two definitions of value-carrying kinds (label in any segment, .equ, .set; both orders, other letter case): must fail.",
+ "C11": " Deterministic legs: an .include inside a macro body, the same file name in two directories (the including file's directory decides). Trees with an even number of files name the main file by a path relative to the working directory; the main file may be a symbolic link. A deterministic leg opens a conditional or a macro definition in one file and closes it in the other (two open findings).",
+ "C12": " A placement grid (every device x memory x {cap, cap+1}) selects the device from a macro body (defined before or after), inside a conditional or after the content, places the last unit through a macro that starts with .org, and follows an over-full memory by an .org back to its start; .device operands that are not names, two names on one line and second selections through macros must fail; one placement leaves an origin in an empty segment, makes an excursion and continues the memory.",
  "C13": " A seeded free-form leg (800k quick / 8M thorough) and the libFuzzer target `gate` put generated encodable instructions (all operand spellings, word addresses 0-5) under every device of the table.",
- "C14": " Comment texts include banners (runs of 90-300 operator or parenthesis characters) in all three comment kinds; a radix leg writes values around 2^31..2^70 in every radix and compares with the decimal spelling in five contexts.",
+ "C14": " Comment texts include banners (runs of 90-300 operator or parenthesis characters) in all three comment kinds; a radix leg writes values around 2^31..2^70 in every radix and compares with the decimal spelling in five contexts; names of labels, .equ, .set and .def tested by .ifdef/.ifndef are written in four letter cases.",
  "C15": " Fault kinds include an undefined symbol where its value cannot matter (right of a decided && / ||, times zero, inside a function); every fourth fault program is also built from a file (as main file and as included file, blank lines on top); messages issued from macro bodies must come in textual order or in the order of assembly (open finding).",
- "C16": " Worker processes run on a 2 MiB stack (the default of a Rust thread). Stress inputs include operator chains up to 10^6 terms in seven positions, symbols x operator chains, absurd sizes under seven devices x nine ways x three sizes, and one name defined by two kinds of definition in both orders (also reserved names). The stress inputs additionally go through the unoptimised command-line binary on its default 8 MiB stack (exit status 0 or 1 within the watchdog, never a signal).",
+ "C16": " Worker processes run on a 2 MiB stack (the default of a Rust thread). Stress inputs include operator chains up to 10^6 terms in seven positions, symbols x operator chains, absurd sizes under seven devices x nine ways x three sizes, and one name defined by two kinds of definition in both orders (also reserved names), macro substitution blow-ups (thousands of uses x tens of thousands of characters), macro and include fan-out (2^24 expansions / includes from a few lines). The stress inputs additionally go through the unoptimised command-line binary on its default 8 MiB stack (exit status 0 or 1 within the watchdog, never a signal).",
  "C17": " A further family uses device names that are near keys of the device table (longer, shorter, other letter case), so that a lookup that iterates a hash map shows as a difference between processes.",
  "C18": " Sources may be reached through a symbolic link with another stem in the same or another directory, carry non-ASCII and non-UTF-8 names, and -o/-e may name /dev/full or one shared path (which must be reported as a failure when both images are non-empty).",
 }
